@@ -548,11 +548,15 @@ const (
 )
 
 // runLaneHelper executes helper u with its position parameter fixed to pos.
-func (c *Ctx) runLaneHelper(u *FuncUnit, pos int64) (it *laneInterp, wordVar *types.Var, L int) {
+func (c *Ctx) runLaneHelper(u *FuncUnit, pos int64, mode ...uint64) (it *laneInterp, wordVar *types.Var, L int) {
 	info := c.m.Info
 	it = &laneInterp{c: c, info: info, env: map[*types.Var]wordV{}, mem: map[*types.Var]wordV{}}
 	k := 0
-	for _, f := range u.Decl.Type.Params.List {
+	fields := u.Decl.Type.Params.List
+	if u.Decl.Recv != nil {
+		fields = append(append([]*ast.Field(nil), u.Decl.Recv.List...), fields...) // the receiver is the word
+	}
+	for _, f := range fields {
 		t := info.TypeOf(f.Type)
 		for _, nm := range f.Names {
 			pv, _ := info.Defs[nm].(*types.Var)
@@ -573,6 +577,9 @@ func (c *Ctx) runLaneHelper(u *FuncUnit, pos int64) (it *laneInterp, wordVar *ty
 				}
 			case *types.Basic:
 				switch {
+				case k == 2 && len(mode) == 1 && isModeType(c.m, t):
+					// a mode parameter (shiftClear(keys, pos, dir)): the constant of the call site
+					it.env[pv] = concV(mode[0], int(8*c.L.Sizes.Sizeof(t)))
 				case tt.Kind() == types.Uint8:
 					it.env[pv] = wordV{w: 8, lanes: []laneV{{k: lkB}}}
 				case tt.Info()&types.IsUnsigned != 0 && k == 0:
@@ -594,13 +601,39 @@ func (c *Ctx) runLaneHelper(u *FuncUnit, pos int64) (it *laneInterp, wordVar *ty
 	return
 }
 
+// isModeType: a named integer (or boolean) type declared in the package – the type of a direction
+// or mode parameter, as opposed to a key byte.
+func isModeType(m *Model, t types.Type) bool {
+	n, ok := types.Unalias(t).(*types.Named)
+	if !ok || n.Obj().Pkg() != m.Pkg {
+		return false
+	}
+	b, ok := n.Underlying().(*types.Basic)
+	return ok && b.Info()&(types.IsInteger|types.IsBoolean) != 0
+}
+
 // laneHelperRole classifies a package-level function by its signature.
 func (c *Ctx) laneHelperRole(u *FuncUnit) laneRole {
-	if u == nil || u.Decl == nil || u.Lit != nil || u.Recv != "" || u.Obj == nil || u.Body == nil {
+	if u == nil || u.Decl == nil || u.Lit != nil || u.Obj == nil || u.Body == nil {
 		return roleNone
 	}
 	sig, _ := u.Obj.Type().(*types.Signature)
-	if sig == nil || sig.Params().Len() < 2 || sig.Params().Len() > 3 {
+	if sig == nil {
+		return roleNone
+	}
+	// a method of a word type (type keys4 uint32; func (k *keys4) set(pos int, b byte)): the
+	// receiver is the first operand
+	var ptypes []types.Type
+	if sig.Recv() != nil {
+		if len(u.Decl.Recv.List) != 1 || len(u.Decl.Recv.List[0].Names) != 1 {
+			return roleNone
+		}
+		ptypes = append(ptypes, sig.Recv().Type())
+	}
+	for i := 0; i < sig.Params().Len(); i++ {
+		ptypes = append(ptypes, sig.Params().At(i).Type())
+	}
+	if len(ptypes) < 2 || len(ptypes) > 3 {
 		return roleNone
 	}
 	isWordPtr := func(t types.Type) bool {
@@ -623,15 +656,17 @@ func (c *Ctx) laneHelperRole(u *FuncUnit) laneRole {
 		b, ok := t.Underlying().(*types.Basic)
 		return ok && b.Info()&types.IsInteger != 0 && b.Kind() != types.Uint8
 	}
-	p0, p1 := sig.Params().At(0).Type(), sig.Params().At(1).Type()
+	p0, p1 := ptypes[0], ptypes[1]
 	inPlace := sig.Results().Len() == 0 && isWordPtr(p0)
 	pure := sig.Results().Len() == 1 && isWord(p0) && types.Identical(sig.Results().At(0).Type(), p0)
 	switch {
-	case sig.Params().Len() == 3 && (inPlace || pure) && isInt(p1) && isByte(sig.Params().At(2).Type()):
+	case len(ptypes) == 3 && (inPlace || pure) && isInt(p1) && isModeType(c.m, ptypes[2]):
+		return roleOpen // a shift with a direction parameter: decided per call site, with its constant
+	case len(ptypes) == 3 && (inPlace || pure) && isInt(p1) && isByte(ptypes[2]):
 		return roleSet
-	case sig.Params().Len() == 2 && sig.Results().Len() == 1 && isWord(p0) && isInt(p1) && isByte(sig.Results().At(0).Type()):
+	case len(ptypes) == 2 && sig.Results().Len() == 1 && isWord(p0) && isInt(p1) && isByte(sig.Results().At(0).Type()):
 		return roleGet
-	case sig.Params().Len() == 2 && (inPlace || pure) && isInt(p1):
+	case len(ptypes) == 2 && (inPlace || pure) && isInt(p1):
 		return roleOpen // open or close: decided at the call site
 	}
 	return roleNone
@@ -648,13 +683,13 @@ func ruleR53(c *Ctx) {
 	}
 	roleName := map[laneRole]string{roleGet: "reads lane pos", roleSet: "stores b into lane pos and leaves the other lanes", roleOpen: "opens a gap (every lane above takes the lane below it)", roleClose: "closes a gap (every lane from it on takes the lane above it)"}
 	// verdict: "ok", "bad" (with the failing position and lane) or "unknown" (with the reason)
-	verdict := func(u *FuncUnit, role laneRole, off int64, callAt string) (string, string) {
-		_, _, L := c.runLaneHelper(u, 0)
+	verdict := func(u *FuncUnit, role laneRole, off int64, callAt string, mode ...uint64) (string, string) {
+		_, _, L := c.runLaneHelper(u, 0, mode...)
 		if L == 0 {
 			return "unknown", "no word parameter"
 		}
 		for g := int64(0); g < int64(L); g++ {
-			it, wv, _ := c.runLaneHelper(u, g+off)
+			it, wv, _ := c.runLaneHelper(u, g+off, mode...)
 			if it.fail != "" {
 				return "unknown", it.fail
 			}
@@ -725,10 +760,13 @@ func ruleR53(c *Ctx) {
 		return "ok", fmt.Sprintf("lane-wise abstract interpretation for each of the %d positions it is called with (word of %d lanes): the lanes follow the children array of the calling block", L, L)
 	}
 	checked := map[*FuncUnit]bool{}
-	check := func(u *FuncUnit, role laneRole, off int64, callPos token.Pos) {
+	check := func(u *FuncUnit, role laneRole, off int64, callPos token.Pos, mode ...uint64) {
 		key := fmt.Sprintf("%s %s", u.Name, roleName[role])
+		if len(mode) == 1 {
+			key += fmt.Sprintf(" (mode %d)", mode[0])
+		}
 		checked[u] = true
-		st, msg := verdict(u, role, off, " (as at "+m.pos(callPos)+")")
+		st, msg := verdict(u, role, off, " (as at "+m.pos(callPos)+")", mode...)
 		switch st {
 		case "ok":
 			n++
@@ -760,7 +798,13 @@ func ruleR53(c *Ctx) {
 					}
 					cu := m.calleeUnit(call)
 					role := c.laneHelperRole(cu)
-					if role == roleNone || len(call.Args) < 2 {
+					args := call.Args
+					if role != roleNone && cu.Decl.Recv != nil {
+						if sel, ok := ast.Unparen(call.Fun).(*ast.SelectorExpr); ok {
+							args = append([]ast.Expr{sel.X}, call.Args...) // the receiver is the word
+						}
+					}
+					if role == roleNone || len(args) < 2 {
 						return true
 					}
 					off := int64(0)
@@ -774,18 +818,34 @@ func ruleR53(c *Ctx) {
 							role = roleClose
 						}
 						a := &armNorm{c: c, idx: map[string]string{}}
-						pl, ok1 := a.lin(c.linLocal(u, call.Args[1]))
+						pl, ok1 := a.lin(c.linLocal(u, args[1]))
 						if !ok1 || (pl.base != gapText.base) {
 							return true
 						}
 						off = pl.off - gapText.off
 					}
-					id := fmt.Sprintf("%s/%d/%d", cu.Name, role, off)
+					var mode []uint64
+					if len(args) == 3 && role != roleSet {
+						tv, has := m.Info.Types[args[2]]
+						if !has || tv.Value == nil {
+							return true // the mode is not a constant here: left to the fallback reading
+						}
+						if mv, exact := constant.Uint64Val(constant.ToInt(tv.Value)); exact {
+							mode = []uint64{mv}
+						} else if tv.Value.Kind() == constant.Bool {
+							if constant.BoolVal(tv.Value) {
+								mode = []uint64{1}
+							} else {
+								mode = []uint64{0}
+							}
+						}
+					}
+					id := fmt.Sprintf("%s/%d/%d/%v", cu.Name, role, off, mode)
 					if seen[id] {
 						return true
 					}
 					seen[id] = true
-					check(cu, role, off, call.Pos())
+					check(cu, role, off, call.Pos(), mode...)
 					return true
 				})
 			}
@@ -854,6 +914,16 @@ func (c *Ctx) childrenShiftIn(u *FuncUnit, list []ast.Stmt) (dir int, gap linFor
 	info := c.m.Info
 	a := &armNorm{c: c, idx: map[string]string{}}
 	for _, st := range list {
+		// the copy written as a loop (shiftloop.go)
+		for _, sl := range c.shiftLoopsIn(st) {
+			for _, arr := range sl.arrays {
+				if strings.HasSuffix(arr, "children") && dir == 0 {
+					if g, ok := a.lin(c.linLocal(u, sl.from)); ok {
+						dir, gap = sl.dir, g
+					}
+				}
+			}
+		}
 		ast.Inspect(st, func(x ast.Node) bool {
 			call, ok := x.(*ast.CallExpr)
 			if !ok || !isBuiltinCall(info, call, "copy") || len(call.Args) != 2 || dir != 0 {
